@@ -250,3 +250,55 @@ func wfRangeReq(o *ObjectRangeRequest) bool {
 //@ func NewContentTime
 //@ props C09
 //@ pure
+
+// index of pending uploads: every value is a non-empty list of non-nil uploads
+//@ pred uploadIndexInv(l) = l != nil && allif(k, imp(sl_has(l)[k],
+//@     typeis(sl_val(l)[k], []*multipartUpload) && len(dyn(sl_val(l)[k], []*multipartUpload)) >= 1 &&
+//@     all(j, 0, len(dyn(sl_val(l)[k], []*multipartUpload)), dyn(sl_val(l)[k], []*multipartUpload)[j] != nil)))
+
+//@ func (*bucketUploads).remove
+//@ props C06 C14 C09
+//@ requires          wf:     bu != nil && bu.uploads != nil && uploadIndexInv(bu.objectIndex)
+//@ requires          known:  has(bu.uploads, uploadID) && bu.uploads[uploadID] != nil
+//@ loop 1 invariant  idx:    -1 <= rangeindex && rangeindex < len(uploads) && len(uploads) >= 1 && found >= -1 && found <= rangeindex
+//@ ensures [C06,C14] gone:   !has(bu.uploads, uploadID)
+//@ ensures [C06,C14] others: allstr(i, imp(i != uploadID, has(bu.uploads, i) == old(has(bu.uploads, i)) &&
+//@                             bu.uploads[i] == old(bu.uploads[i])))
+//@ modifies bu.uploads[:], sl_has(bu.objectIndex), sl_val(bu.objectIndex), sl_len(bu.objectIndex), sl_key(bu.objectIndex)
+
+//@ func (*uploader).CompleteMultipartUpload
+//@ props C06 C09
+//@ let M = u.buckets[bucket].uploads[id]
+//@ recfun psum(t) = ite(t <= 0, 0, psum(t-1) + len(M.parts[input.Parts[t-1].PartNumber].Body))
+//@ pred listedOK(parts, in, k) = 0 <= in.Parts[k].PartNumber && in.Parts[k].PartNumber < len(parts) &&
+//@     parts[in.Parts[k].PartNumber] != nil &&
+//@     strings.Trim(in.Parts[k].ETag, "\"") == strings.Trim(parts[in.Parts[k].PartNumber].ETag, "\"")
+//@ requires          inv:    uploaderInv(u) && u.storage != nil && input != nil
+//@ requires          free:   u.mu == 0 && allref(m, *multipartUpload, m.mu == 0)
+//@ requires          idx:    allstr(b, imp(has(u.buckets, b), uploadIndexInv(u.buckets[b].objectIndex)))
+//@ assume            mem:    all(t, 0, len(input.Parts) + 1, 0 <= psum(t) && psum(t) <= 281474976710655) because the listed parts are resident in memory (each part body is a live []byte)
+//@ loop 1 invariant  idx:    -1 <= rangeindex__1 && rangeindex__1 < len(input.Parts)
+//@ loop 1 invariant  ok:     all(k, 0, rangeindex__1 + 1, listedOK(mpu.parts, input, k))
+//@ loop 1 invariant  sum:    size == psum(rangeindex__1 + 1)
+//@ loop 2 invariant  idx:    -1 <= rangeindex__2 && rangeindex__2 < len(input.Parts)
+//@ loop 2 invariant  len:    len(body) == psum(rangeindex__2 + 1)
+//@ ensures [C06]     reject: imp(err != nil, unchanged() && store_gen == old(store_gen))
+//@ ensures [C06]     absent: imp(old(!has(u.buckets, bucket) || !has(u.buckets[bucket].uploads, id)), err != nil)
+//@ ensures [C06]     order:  imp(!all(i, 0, len(input.Parts), all(j, i, len(input.Parts), input.Parts[i].PartNumber <= input.Parts[j].PartNumber)), err != nil)
+//@ ensures [C06]     listed: imp(err == nil, all(k, 0, len(input.Parts), listedOK(old(M.parts), input, k)))
+//@ ensures [C06]     done:   imp(err == nil, !has(u.buckets[bucket].uploads, id) &&
+//@                             put_count == old(put_count) + 1 && put_bucket == bucket && put_key == object &&
+//@                             put_meta == old(M.Meta) && put_size == psum(len(input.Parts)))
+//@ ensures [C06]     keep:   imp(err == nil, allstr(i, imp(i != id, has(u.buckets[bucket].uploads, i) == old(has(u.buckets[bucket].uploads, i)) &&
+//@                             u.buckets[bucket].uploads[i] == old(u.buckets[bucket].uploads[i]))))
+//@ ensures           locks:  u.mu == 0
+
+//@ func (*uploader).AbortMultipartUpload
+//@ props C06 C09
+//@ requires          inv:    uploaderInv(u)
+//@ requires          free:   u.mu == 0
+//@ requires          idx:    allstr(b, imp(has(u.buckets, b), uploadIndexInv(u.buckets[b].objectIndex)))
+//@ ensures [C06]     reject: imp(ret0 != nil, unchanged())
+//@ ensures [C06]     gone:   imp(ret0 == nil, !has(u.buckets[bucket].uploads, id))
+//@ ensures [C06]     nostore: store_gen == old(store_gen) && put_count == old(put_count)
+//@ ensures           locks:  u.mu == 0
